@@ -10,6 +10,9 @@ sys.path.insert(0, VERIF)
 from vlib import build as vbuild  # noqa: E402
 
 
+OTHERFS = ["/var/tmp", "/tmp", "/dev/shm"]     # where to look for a second file system
+
+
 class Violation(Exception):
     """Raised by a part's run() when the oracle is contradicted."""
 
@@ -96,6 +99,23 @@ class Ctx:
 
     def rmdir(self, d):
         shutil.rmtree(d, ignore_errors=True)
+
+    def otherfs_dir(self):
+        """A fresh directory on a file system other than the scratch one (None if there is
+        none): <cand>/<scratch name>.x/w<k>/c<n>; the driver removes <scratch name>.x at exit."""
+        dev = os.stat(self.tmp).st_dev if os.path.isdir(self.tmp) else os.stat(self.scratch).st_dev
+        for cand in OTHERFS:
+            try:
+                if not os.path.isdir(cand) or os.stat(cand).st_dev == dev or not os.access(cand, os.W_OK):
+                    continue
+                self._n += 1
+                d = os.path.join(cand, os.path.basename(self.scratch) + ".x", "w%d" % self.widx, "c%d" % self._n)
+                shutil.rmtree(d, ignore_errors=True)
+                os.makedirs(d)
+                return d
+            except OSError:
+                continue
+        return None
 
     def known_selectors(self):
         return [k.get("selector") for k in self.known if k.get("property") == self.id]
@@ -333,6 +353,8 @@ def main(argv=None):
     finally:
         if not a.keep:
             shutil.rmtree(scratch, ignore_errors=True)
+        for cand in OTHERFS:
+            shutil.rmtree(os.path.join(cand, os.path.basename(scratch) + ".x"), ignore_errors=True)
     sys.stdout.flush()
     return rc
 
